@@ -257,8 +257,10 @@ func ParentMain(p Prop, tier string, seed int64, po ParentOpts) int {
 			defer wg.Done()
 			agg := &workerResult{cnt: map[string]int64{}}
 			resume := ""
-			for attempt := 0; attempt < 12; attempt++ {
-				r := runWorker(self, id, tier, seed, i, n, false, resume, po.Deadline, po.ExtraEnv)
+			// after a first culprit the shard continues in announcing mode (one silence period less per further
+			// culprit); at most 5 culprits per shard are examined, the rest of the shard is then reported as not covered
+			for attempt := 0; attempt < 5; attempt++ {
+				r := runWorker(self, id, tier, seed, i, n, attempt > 0, resume, po.Deadline, po.ExtraEnv)
 				if r.oom {
 					mu.Lock()
 					infra = append(infra, fmt.Sprintf("shard %d: worker exceeded %d MiB of memory and was stopped; the shard is incomplete", i, MaxWorkerRSSMiB))
@@ -271,7 +273,10 @@ func ParentMain(p Prop, tier string, seed int64, po ParentOpts) int {
 					break
 				}
 				// identify the culprit with an announcing re-run of this shard
-				r2 := runWorker(self, id, tier, seed, i, n, true, resume, po.Deadline, po.ExtraEnv)
+				r2 := r
+				if attempt == 0 {
+					r2 = runWorker(self, id, tier, seed, i, n, true, resume, po.Deadline, po.ExtraEnv)
+				}
 				if !r2.died && !r2.hung {
 					// did not reproduce: infrastructure problem, not a violation
 					mu.Lock()
@@ -287,17 +292,23 @@ func ParentMain(p Prop, tier string, seed int64, po ParentOpts) int {
 					mu.Unlock()
 					break
 				}
-				// confirm alone, twice
+				// confirm alone: twice for the first culprit of the run, once for the following ones
+				mu.Lock()
+				need := 2
+				if len(deaths) > 0 {
+					need = 1
+				}
+				mu.Unlock()
 				confirmed := 0
 				var lastErr string
-				for k := 0; k < 2; k++ {
+				for k := 0; k < need; k++ {
 					r3 := runOnly(self, id, tier, seed, r2.lastID, po.ExtraEnv)
 					if r3.died || r3.hung {
 						confirmed++
 						lastErr = r3.stderr
 					}
 				}
-				if confirmed == 2 {
+				if confirmed == need {
 					first, site := fatalSignature(lastErr)
 					kind := "process-death"
 					if r2.hung {
